@@ -36,7 +36,9 @@ def gen_pre_text(rng):
     string constant or a comment (valid Python: only \\n and \\r end a line for the tokenizer)"""
     sep = rng.choice(SEPS)
     return rng.choice(['S = "a%sb"' % sep, "T = 'x%sy'  # c%sd" % (sep, sep), "# only a comment %s here" % sep,
-                       'import os\nU = """m%sn"""' % sep, "V = 1"])
+                       'import os\nU = """m%sn"""' % sep, "V = 1",
+                       # preambles that begin and end with a quote: a string statement, an expression of two strings
+                       '"""note %s"""' % sep, '"é" + "\\\\"', "'x' 'y'", '"only"', '"a" if 1 else "b"'])
 
 
 def gen_argv(rng):
@@ -159,10 +161,11 @@ def falsify(ctx):
     with tempfile.TemporaryDirectory(prefix="j2m-c19-") as d:
         clitools.write_files(d, {"d.json": [{"a": 1, "b": {"c": "x"}}], "plain.json": [{"a": 1, "b": 2.5, "c": True}]})
         jobs, metas = [], []
-        for _ in range(ctx.n(24, 300)):
+        directed = ['"""note"""', '"é" + "\\\\"', "'x' 'y'", '"only"', '"a" if 1 else "b"', 'S = "a\u2028b"', "# c\x85d", '"""m\x0cn"""']
+        for k in range(len(directed) + ctx.n(24, 300)):
             weird = gen_arg(rng)
             # the preamble is code: the odd characters go into a comment or a string constant of valid Python
-            pre = rng.choice(["# " + weird.replace("\n", " ").replace("\r", " "), "X = " + repr(weird),
+            pre = directed[k] if k < len(directed) else rng.choice(["# " + weird.replace("\n", " ").replace("\r", " "), "X = " + repr(weird),
                               "import os\nY = " + repr(weird) + "  # c", "  \n", "", gen_pre_text(rng), gen_pre_text(rng)])
             extra = gen_arg(rng).replace("\x00", "")
             base = ["-m", "Root", rng.choice(["d.json", "plain.json"]), "-f", rng.choice(common.FRAMEWORKS + ["base", "base"]),
